@@ -187,6 +187,10 @@ impl Property for C11 {
             let _ = iroh_docs::verif::take_dials();
             let mut net = Net::default();
             let mut fin_toggle = false;
+            // refused sync reports not yet followed up, per node (for the follow-up specification)
+            let mut pending_report = [false; 2];
+            // … and whether a session that started after the report already covers it
+            let mut covered = [false; 2];
             for op in ops {
                 let act = match op {
                     Op::Setup { .. } => continue,
@@ -215,6 +219,7 @@ impl Property for C11 {
                         if let Some(i) = net.ctasks[n].iter().position(|c| c.0 == CPhase::Requesting) {
                             match nodes[other].coord.accept_sync_request(nsid, ids[n]) {
                                 AcceptOutcome::Allow => {
+                                    covered[other] = true;
                                     let sid = net.sessions;
                                     net.sessions += 1;
                                     net.ctasks[n][i].0 = CPhase::InSession(sid);
@@ -273,11 +278,27 @@ impl Property for C11 {
                     _ => anyhow::bail!("unknown action {act}"),
                 }
                 // dials decided by the handlers of node n (the dial itself, or a follow-up)
+                let mut dialed = [false; 2];
+                let mut follow_up_spec: Option<String> = None;
                 for (dns, peer, reason) in iroh_docs::verif::take_dials() {
                     anyhow::ensure!(dns == nsid, "dial for another document");
                     let from = if peer == ids[1] { 0 } else { 1 };
+                    dialed[from] = true;
+                    if matches!(reason, SyncReason::Resync) {
+                        // specification: a follow-up dial answers a refused report, once
+                        if !pending_report[from] {
+                            follow_up_spec = Some(format!("follow-up-dial-without-a-pending-refused-report:node{from}"));
+                        }
+                        pending_report[from] = false;
+                    }
+                    covered[from] = true;
                     net.ctasks[from].push((CPhase::Requesting, reason));
                     net.dials[from] += 1;
+                }
+                if t[0] == "dial" && t[2] == "1" && syncing[n] && !dialed[n] {
+                    // a sync report that did not lead to a dial: refused because the slot is busy
+                    pending_report[n] = true;
+                    covered[n] = false;
                 }
                 let mut snap = vec![];
                 for m in 0..2 {
@@ -300,7 +321,13 @@ impl Property for C11 {
                 lines.push(Line::oracle("sconst at-most-one-session", if in_progress <= 1 { "at-most-one-session".to_string() } else { format!("{in_progress}-sessions-in-progress") }));
                 if quiescent {
                     lines.push(Line::oracle("sconst quiescent-implies-ready", if ready { "quiescent-implies-ready" } else { "quiescent-but-marked-busy" }));
+                    if follow_up_spec.is_none() {
+                        if let Some(m) = (0..2).find(|m| pending_report[*m] && !covered[*m]) {
+                            follow_up_spec = Some(format!("refused-report-never-followed-up:node{m}"));
+                        }
+                    }
                 }
+                lines.push(Line::oracle("sconst one-follow-up-per-refused-report", follow_up_spec.unwrap_or_else(|| "one-follow-up-per-refused-report".into())));
             }
             // leave the document so that the next case starts clean
             Ok(())
